@@ -1,4 +1,5 @@
 import PraatModel.Tier
+import PraatModel.Textgrid
 
 /-!
 # Line protocol shared by the driver and the Python harness
@@ -97,6 +98,19 @@ def ptier {α} [Proto α] : P (PTier α) := do
   let name ← str; let lo ← time; let hi ← time; let ps ← ptList
   pure ⟨name, ps, lo, hi⟩
 
+def anyTier {α} [Proto α] : P (AnyTier α) := do
+  match (← get) with
+  | "I" :: _ => .I <$> itier
+  | _ => .P <$> ptier
+
+/-- `G <lo|N> <hi|N> <n> tier*` -/
+def tg {α} [Proto α] : P (Tg α) := do
+  let k ← tok
+  if k ≠ "G" then throw s!"expected G got {k}"
+  let lo ← opt time; let hi ← opt time; let n ← nat
+  let ts ← many n anyTier
+  pure ⟨ts, lo, hi⟩
+
 def cropMode : P CropMode := do
   match (← tok) with
   | "strict" => pure .strict | "lax" => pure .lax | "truncated" => pure .truncated
@@ -135,6 +149,14 @@ def itier {α} [Proto α] (t : ITier α) : String :=
   s!"I {str t.name} {time t.lo} {time t.hi} {ivList t.es}"
 def ptier {α} [Proto α] (t : PTier α) : String :=
   s!"P {str t.name} {time t.lo} {time t.hi} {ptList t.ps}"
+def anyTier {α} [Proto α] : AnyTier α → String
+  | .I t => itier t
+  | .P t => ptier t
+def otime {α} [Proto α] : Option α → String
+  | none => "N"
+  | some x => time x
+def tg {α} [Proto α] (g : Tg α) : String :=
+  join (["G", otime g.lo, otime g.hi, toString g.tiers.length] ++ g.tiers.map anyTier)
 def bool (b : Bool) : String := if b then "1" else "0"
 def exc {β} (f : β → String) : Except Err β → String
   | .ok v => "ok " ++ f v
